@@ -1134,6 +1134,11 @@ class Interp:
         if isinstance(obj, (dict, list)):
             if isinstance(idx, Sym) and isinstance(obj, dict):
                 raise Unsupported("symbolic key into concrete dict store")
+            from . import modstate
+
+            owner = modstate.touch(obj)
+            if owner:
+                self.ctx.assumptions_used.add(f"record:module-level state written by the code under analysis: {owner} (restored after every path)")
             try:
                 obj[idx] = value
             except (IndexError, KeyError, TypeError) as e:
